@@ -45,6 +45,9 @@ class PathLimit(AnalysisError):
     pass
 
 
+TRUNCATED: List[str] = []
+
+
 class Frame:
     def __init__(self, module: str, func: Optional[FuncInfo], locals_: Dict[str, Value],
                  closure: Optional[Dict[str, Value]] = None, self_val: Optional[Value] = None,
@@ -168,7 +171,10 @@ class Interp:
                 for alt in range(n - 1, c, -1):
                     stack.append([t[1] for t in tr[:i]] + [alt])
             if len(paths) > self.max_paths:
-                raise PathLimit(f"more than {self.max_paths} paths")
+                # keep what was explored: a violation on an explored path is real; without one the driver
+                # reports ANALYSIS-ERROR because the exploration is incomplete
+                TRUNCATED.append(f"exploration stopped after {self.max_paths} paths")
+                break
         return paths
 
     # ------------------------------------------------------------------ helpers
